@@ -8,6 +8,17 @@ class WritePotentialException(Exception):
   pass
 
 
+def _fitField(value):
+  """Returns value unless its magnitude is below 1e-99. Such a number is printed with a three
+  digit exponent, which does not fit the 15 character fields of a TABLE record and would shift
+  every following field when the file is read with a fixed format; it is written as zero instead.
+
+  @param value Energy or force value
+  @return value or 0.0"""
+  if value != 0.0 and abs(value) < 1.0e-99:
+    return 0.0
+  return value
+
 def _writePotential(potential, cutoff, gridPoints, meshResolution, out ):
   """Given a writeTABLE.Potential object, will write it to the given stream (out)
   in the correct DL_POLY TABLE file format.
@@ -38,7 +49,7 @@ def _writePotential(potential, cutoff, gridPoints, meshResolution, out ):
   r=0.0
   for i in range(gridPoints):
     r += meshResolution
-    l.append(potential.energy(r))
+    l.append(_fitField(potential.energy(r)))
 
     if len(l) == 4:
       #List has 4 elements, dump a row
@@ -51,7 +62,7 @@ def _writePotential(potential, cutoff, gridPoints, meshResolution, out ):
   r = 0.0
   for i in range(gridPoints):
     r += meshResolution
-    l.append(_calculateForce(potential, r))
+    l.append(_fitField(_calculateForce(potential, r)))
 
     if len(l) == 4:
       #List has 4 elements, dump a row
